@@ -211,8 +211,24 @@ def compare(obs, ref, out):
         out.append(dict(clause='association-multiplicity', observed=obs['associations'], required=ref['associations']))
 
 
+def in_domain(ref):
+    """Every attribute named by an identifier or by an association end is an attribute of the built class.  Otherwise (a
+    derived attribute that was not requested, or an attribute of unsupported type, used as key) the property does not
+    say what the component should be, and the case is not evaluated."""
+    names = dict((k, set(a for a, _ in v)) for k, v in ref['classes'].items())
+    for kl, ids in ref['identifiers'].items():
+        for attrs in ids.values():
+            if not set(attrs) <= names.get(kl, set()):
+                return False
+    for a in ref['associations']:
+        for sk, tk in a[7]:
+            if sk not in names.get(a[1], set()) or tk not in names.get(a[4], set()):
+                return False
+    return True
+
+
 def run_case(case):
-    """case: dict(seed, script, comp, derived, api).  Returns the list of violations."""
+    """case: dict(seed, script, comp, derived, api).  Returns the list of violations (None: case outside the domain)."""
     import xtuml
     out = []
     comp, derived, api = case.get('comp'), bool(case.get('derived')), case.get('api', 'mk')
@@ -233,6 +249,10 @@ def run_case(case):
         for i, st in enumerate(states):
             last = i == len(states) - 1
             ref = describe(st, comp, derived, case['seed'])
+            if ref is not None and not in_domain(ref):
+                if last:
+                    return None
+                ref = None
             if ref is None:
                 # the named component does not exist in this state (before add_component): nothing to compare
                 observed.append(None)
@@ -287,12 +307,14 @@ def run_case(case):
 
 
 def check_case(ctx, case, nontrivial=True):
-    ctx.case(key=case, nontrivial=nontrivial)
     try:
         vs = run_case(case)
+        ctx.case(key=case, nontrivial=vs is not None)
+        vs = vs or []
     except BaseException as e:
         if isinstance(e, (KeyboardInterrupt, MemoryError)):
             raise
+        ctx.case(key=case, nontrivial=True)
         ctx.check(False, clause='harness-error', input=case, observed=traceback.format_exc().splitlines()[-4:], required='case runs')
         return
     for v in vs:
@@ -331,7 +353,7 @@ def real_cases(depth):
                                     'xtuml.persist.persist_database'],
       bound='tests/resources/Simple_Model.xtuml and Globals.xtuml; every single edit (rename, retype to 11 types, reorder, derive, '
             'toggle Mult/Cond, phrase, 5 row orders, added component) at every site x {whole, Comp} x {derived off, on}; '
-            'thorough: every pair of edits',
+            'thorough: every pair of edits; non-trivial = every identifier/association key is an attribute of the built class',
       shards=8, weight=3)
 def real_models(ctx):
     for i, case in enumerate(real_cases(1 if ctx.quick else 2)):
@@ -343,6 +365,10 @@ def real_models(ctx):
         check_case(ctx, case)
     else:
         ctx.exhausted = True
+    if ctx.shard == 0:
+        ctx.note('not compared / not generated: order of the attributes inside an identifier and of the key pairs of an association, '
+                 'unformalized and derived (R_COMP) relationships, imported classes, package references (R1402), names or phrases '
+                 'outside the persistable domain (K2), the error raised for an unknown component name')
 
 
 def synth_cases(quick, rng_seed):
@@ -426,4 +452,4 @@ def entry_points(ctx):
 
 
 def replay(item_name, input):
-    return run_case(input)
+    return run_case(input) or []
